@@ -7,6 +7,14 @@ namespace VizierModel.Pareto
 
 variable {β : Type}
 
+theorem any_congr_mem {γ : Type} (f g : γ → Bool) (l : List γ) (hfg : ∀ a ∈ l, f a = g a) :
+    l.any f = l.any g := by
+  induction l with
+  | nil => rfl
+  | cons a as ih =>
+    simp only [List.any_cons]
+    rw [hfg a (List.mem_cons_self ..), ih (fun x hx => hfg x (List.mem_cons_of_mem _ hx))]
+
 /-- a strict total order given as a Boolean relation -/
 structure StrictTotal {α : Type} (lt : α → α → Bool) : Prop where
   irrefl : ∀ a, lt a a = false
